@@ -93,14 +93,14 @@ class Ctx:
         self.counters[name] += n
 
     # -- monitors ---------------------------------------------------------------------------
-    def check(self, cond, kind, msg="", **witness):
+    def check(self, cond, kind, msg="", /, **witness):
         self.counters["mon:" + kind] += 1
         if not cond:
             self.violation(kind, msg, **witness)
             return False
         return True
 
-    def violation(self, kind, msg="", **witness):
+    def violation(self, kind, msg="", /, **witness):
         self.counters["violations"] += 1
         v = {"kind": kind, "message": str(msg)[:2000], "family": self._family, "index": self._idx,
              "case": self._case_info, "witness": jsonable(witness)}
